@@ -6,8 +6,10 @@ FINDING = "contract-signer-used-through-grant-is-not-a-party"
 PROP = {
     "go_test": "TestC10",
     "claimed": True,
-    "coq_files": ["Metadata/Signers.v", "Metadata/SignersSpec.v", "Proofs/SignersProofs.v",
-                  "Proofs/SignersProofs2.v", "Proofs/SignersProofs3.v", "Corr/CorrBase.v", "Corr/C10.v"],
+    "coq_files": ["Metadata/Signers.v", "Metadata/SignersSpec.v", "Metadata/AuthzCount.v", "Proofs/SignersProofs.v",
+                  "Proofs/SignersProofs2.v", "Proofs/SignersProofs3.v", "Proofs/SignersProofs4.v",
+                  "Proofs/SignersProofs5.v", "Proofs/SignersProofs6.v", "Proofs/AuthzCountProofs.v",
+                  "Corr/CorrBase.v", "Corr/C10.v"],
     "rule": "a configuration = (smart-contract accounts, authz grants (granter, grantee, message kind), required parties, "
             "available parties (address, role, optional), required-role list with repeats, ordered signer list) for the direct "
             "calls, or (endpoint, rollup on/off, new/existing entry, scope owners, session parties, previous session, spec roles, "
@@ -15,36 +17,62 @@ PROP = {
             "2 roles x optional/required} x role lists of length <= 2 x sub-lists of 3 signers x subsets of 2 grants (5,600) "
             "and samples the larger space (<= 4 parties incl. one address in two roles, required != available, 3 repeated "
             "roles, 6 accounts of which 2 smart contracts, grants under own/alias/unrelated kind and in the wrong direction); "
-            "thorough enumerates 3 addresses x role lists <= 3 x 4 signers. A case is non-trivial when there is at least one "
-            "signer and at least one required party or required role (direct calls) / always for messages; distinct = "
-            "distinct case terms",
+            "1,800 real messages over eleven message types (MsgWriteScope new/existing, MsgDeleteScope, MsgAdd/DeleteScopeOwner, "
+            "MsgWriteSession, MsgWriteRecord incl. moving, MsgDeleteRecord, MsgAdd/DeleteScopeDataAccess, MsgUpdateValueOwners "
+            "over 1-3 scopes); 800 'overlap' messages (3 addresses x 2 roles, the same party in scope / session / previous "
+            "session with different optional flags and roles, an optional entry preceding the required one in the keeper's "
+            "concatenation, the dropped signer being such a hidden required party in ~150 of them); 150 count-limited "
+            "authorization scenarios (authz.CountAuthorization with 1-3 uses under own/alias/unrelated kinds, up to two grantees, "
+            "mixed with generic ones, 3-9 identical messages in a row through ValidateSignersWithoutParties / "
+            "ValidateSignersWithParties / real MsgAddScopeDataAccess); 14 fixed witnesses of the Coq observations. Thorough "
+            "enumerates 3 addresses x role lists <= 3 x 4 signers and scales the random streams ~14x. A case is non-trivial when "
+            "there is at least one signer and at least one required party or required role (direct calls) / always for messages "
+            "and count scenarios; distinct = distinct case terms",
     "assumptions": [
-        "authz grants are generic authorizations (never consumed, unexpired); count-limited authorizations, whose "
-        "consumption makes the order of lookups observable, are outside the model and the generators",
-        "scopes have no value owner and none is proposed (value-owner signer rules are C09)",
+        "authz grants are generic authorizations (never consumed, unexpired): stated as theorems over a transcription of "
+        "findAuthzGrantee with count-limited authorizations (C10_generic_grants_assumption: on a generic store the lookup is "
+        "exactly the model's relation and read-only; C10_count_limited_outside_model: with one CountAuthorization it is not); "
+        "the run records what the real keeper does with CountAuthorizations and compares it with that counted transcription, "
+        "not with the main model",
+        "scopes have no value owner and none is proposed on the scope/session/record endpoints (value-owner signer rules are "
+        "C09); for MsgUpdateValueOwners only the signer part is modelled (non-marker value owners, distinct scope ids, the "
+        "bank transfer after an accepted signer check succeeds)",
         "party and signer addresses are valid bech32 account addresses (message ValidateBasic)",
-        "a smart contract is what keeper.isWasmAccount says: an existing BaseAccount with sequence 0 and no public key",
-        "the non-signature parts of the write validators (ids, spec lookups, record inputs/outputs) are satisfied, not modelled",
+        "a smart contract is what keeper.isWasmAccount says: an existing BaseAccount with sequence 0 and no public key "
+        "(read back from the state each message runs on: an account that has only received a scope coin counts)",
+        "the non-signature parts of the write validators (ids, spec lookups, record inputs/outputs, data-access lists) are "
+        "satisfied, not modelled",
     ],
-    "level_text": "Kernel-checked theorems (13, closed under the global context) about the Gallina transcription of "
-                  "signers.go / signer_utils.go and of the callers in scope.go, session.go, record.go: an accepted "
+    "level_text": "Kernel-checked theorems (32, closed under the global context) about the Gallina transcription of "
+                  "signers.go / signer_utils.go and of the callers in scope.go, session.go, record.go, msg_server.go: an accepted "
                   "ValidateSignersWithParties accounts (signer or authz grant to a signer) for every non-optional required "
                   "party, admits an INJECTIVE assignment of the required-role entries to distinct available signing parties of "
                   "that role (the two greedy passes are proved equivalent to the existence of such an assignment, for all "
                   "inputs), satisfies the PROVENANCE-role rule and the smart-contract position rule; conversely the documented "
-                  "rule implies acceptance (exact iff when no contract signs; direct-signature completeness); the endpoint "
-                  "table (write/delete scope, add/delete owner, write session, write/delete record, rollup on/off, record "
-                  "moving between sessions incl. the previous session's parties) is implied by acceptance. Each run evaluates "
-                  "the transcription against the real keeper functions and the real message handlers on ~10,300 (quick) / "
-                  "~190,000 (thorough) configurations inside Coq, and evaluates the documented rule (brute-force search for the "
+                  "rule implies acceptance (exact iff when no contract signs). PER ENDPOINT (MsgWriteScope new/existing, "
+                  "MsgDeleteScope, MsgAdd/DeleteScopeOwner, MsgWriteSession new/existing, MsgWriteRecord incl. a record moving "
+                  "between sessions, MsgDeleteRecord, MsgAdd/DeleteScopeDataAccess; rollup on and off): soundness of the whole "
+                  "documented row (C10_endpoints_sound, C10_endpoints_checker_sound: the executable table evaluated on the "
+                  "implementation's answers holds of every message the model accepts), the smart-contract rule "
+                  "(C10_endpoints_contract_rule) and COMPLETENESS (C10_endpoints_complete_direct: every named party signs "
+                  "directly + roles present among the signing parties + contract positions => accepted; "
+                  "C10_endpoints_checker_complete for the checker's boolean). MsgUpdateValueOwners' signer part: soundness, "
+                  "direct completeness without contract signers, and three refutation witnesses (observations). The required "
+                  "party list is proved to matter only as a SET (C10_required_set, C10_required_list_is_a_set, "
+                  "C10_required_order_and_duplicates, C10_required_addresses_set: order of scope ++ session ++ previous session, "
+                  "duplicates and earlier optional entries of the same party cannot change the answer). Each run evaluates "
+                  "the transcription against the real keeper functions and the real message handlers on ~11,700 (quick) / "
+                  "~225,000 (thorough) configurations inside Coq, and evaluates the documented rule (brute-force search for the "
                   "injective assignment, proved to decide it) on the implementation's own answers. One known finding "
                   "(documentation sentence about non-party contract signers, see findings/C10.md).",
-    "level_note": "Trusted: Coq kernel + vm_compute; the hand transcription Metadata/Signers.v (tied to the code only by the "
-                  "correspondence run, bounded by its generators); the rendering of spec/01_concepts.md in "
-                  "Metadata/SignersSpec.v; the Go harness' projection (accept/reject, interned addresses); x/authz and "
-                  "x/auth as used. The endpoint completeness direction is checked by the run (doc_direct), not proved. No axioms.",
-    "technique": "Coq proof (greedy = matching by per-role counting, Hall's theorem in its trivial case) over a Gallina model + "
-                 "exhaustive/differential correspondence evaluated in Coq",
+    "level_note": "Trusted: Coq kernel + vm_compute; the hand transcriptions Metadata/Signers.v and Metadata/AuthzCount.v (tied "
+                  "to the code only by the correspondence run, bounded by its generators); the rendering of "
+                  "spec/01_concepts.md in Metadata/SignersSpec.v (doc_sound / doc_direct / doc_direct_P / doc_parties); the Go "
+                  "harness' projection (accept/reject, interned addresses, isWasmAccount read back from state); x/authz and "
+                  "x/auth as used. Both directions of the endpoint table are now proved, not only run. No axioms.",
+    "technique": "Coq proof (greedy = matching by per-role counting, Hall's theorem in its trivial case; normal form of "
+                 "BuildPartyDetails for order/duplicate insensitivity) over a Gallina model + exhaustive/differential "
+                 "correspondence evaluated in Coq",
 }
 
 
@@ -83,7 +111,8 @@ def fingerprint(case, tags):
         m = re.match(r"addr(\d+)->addr(\d+):", g)
         if m:
             grants.add((int(m.group(1)), int(m.group(2))))
+    contracts = case.get("contracts") or (5, 6)
     for s in case.get("signers") or []:
-        if s in (5, 6) and any((p, s) in grants for p in parties if p != s):
+        if s in contracts and any((p, s) in grants for p in parties if p != s):
             return FINDING
     return other
